@@ -308,6 +308,9 @@ func (m *monState) checkSchedule(si *StepInfo, res *OpResult, pre, post *Snap) {
 		}
 		m.acc[res.Job] = a
 		m.order = append(m.order, res.Job)
+		if run.sc.Profile == "C19" {
+			m.logsOfQuietTasks(res.Job, post.Jobs[res.Job])
+		}
 		m.worldOfJob[res.Job] = w.id
 		run.stats.Accepted++
 	}
